@@ -207,4 +207,13 @@ FooterConsistent(Z) ==
     [] Z.rule.kind = "allyear" -> Equiv(LastType(Z), Z.rule.dstT)
     [] Z.rule.kind = "dst" -> TRUE
 WellFormed(Z) == FooterConsistent(Z) /\ RecordedWellFormed(Z) /\ RuleWellFormed(Z) /\ SeamWellFormed(Z)
+\* The same premise read literally: only changes OF THE OFFSET need to be farther apart than the sum of their sizes; entries that
+\* change the designation or the DST flag alone may stand anywhere between them (no civil second is then shown by more than two
+\* instants, and Make / Break above do not care where such entries stand).  Used for a dedicated family of recorded-data-only zones.
+NZJumps(Z) == {k \in 1..Z.n : Jump(Z, k) # 0}
+PrevNZ(Z, k) == LET s == {j \in NZJumps(Z) : j < k} IN IF s = {} THEN 0 ELSE CHOOSE j \in s : \A i \in s : i <= j
+RecordedWellFormedD(Z) ==
+  \A k \in NZJumps(Z) : LET p == PrevNZ(Z, k) IN
+     p = 0 \/ (W(Abs(Jump(Z, p)) + Abs(Jump(Z, k)))) \prec (Z.at[k] \ominus Z.at[p])
+WellFormedD(Z) == Z.rule.kind \in {"none", "std"} /\ FooterConsistent(Z) /\ RecordedWellFormedD(Z)
 =============================================================================
